@@ -113,7 +113,7 @@ def run(out, info, tier, seed):
             pre.append(json.load(open(os.path.join(common.VERIF, fnd['witness'])))['case'])
     for k in range(-len(pre), n):
         crng = random.Random(seed * 1000003 + k)
-        case = pre[k + len(pre)] if k < 0 else gen.gen_forecast_case(crng) if k % 11 == 5 else gen.gen_sibling_reader_case(crng) if k % 9 == 7 else gen.gen_chain_case(crng) if k % 8 == 3 else gen.gen_fanin_case(crng) if k % 6 == 1 else gen.gen_parallel_case(crng) if k % 3 == 2 else gen.gen_case(crng, groups=True, clean=0.8, maxn=4)
+        case = pre[k + len(pre)] if k < 0 else gen.gen_mixed_attr_case(crng) if k % 13 == 9 else gen.gen_forecast_case(crng) if k % 11 == 5 else gen.gen_sibling_reader_case(crng) if k % 9 == 7 else gen.gen_chain_case(crng) if k % 8 == 3 else gen.gen_fanin_case(crng) if k % 6 == 1 else gen.gen_parallel_case(crng) if k % 3 == 2 else gen.gen_case(crng, groups=True, clean=0.8, maxn=4)
         if k >= 0 and k % 5 == 4: case['mirror'] = crng.choice([1, 2])       # several entities per simulator, connected index by index
         variants = []
         for lazy in (True, False):
@@ -186,7 +186,7 @@ def run(out, info, tier, seed):
     for v in violations[:1]: out.violations.append(v)
     for fid, rec in known.items(): out.known_hits.append((kf[fid], rec['observed'][0][:200]))
     out.coverage = {'evaluations': evaluations, 'distinct_nontrivial': len(nontriv), 'traces_validated_against_impl': evaluations if model else 0,
-                    'rule': 'per generated case (80% satisfying the data-flow hypotheses): lazy x cache with different schedule strategies, reversed and two randomly permuted start orders (one case in eight is a trigger chain of three or four hops whose simulator indices are a random permutation of the chain positions), '
+                    'rule': 'per generated case (80% satisfying the data-flow hypotheses): lazy x cache with different schedule strategies, reversed and two randomly permuted start orders (one case in thirteen feeds one destination attribute from a persistent and from an event output; one case in eight is a trigger chain of three or four hops whose simulator indices are a random permutation of the chain positions), '
                             'fine-grained interleaving, debug mode; a subset also with subprocess simulators (remote transport, seeded latencies); '
                             'non-trivial = all variants agreed on a case in which some simulator stepped more than once and connections exist',
                     'samples': samples, 'outcome_histogram': dict(hist), 'differences': len(violations), 'known_finding_hits': list(known)}
